@@ -2,4 +2,5 @@ pub mod devices;
 pub mod expr;
 pub mod ihex;
 pub mod isa;
+pub mod layout;
 pub mod llvm;
